@@ -356,7 +356,12 @@ class ASTRewriter(ast.NodeTransformer):
 
     def __unroll_arg(self, arg):
         """Transform a node to a list (when is a Tuple or a subscribable type)"""
-        if isinstance(arg, ast.Tuple):
+        if isinstance(arg, list):
+            # an unrolled range(): a python list of ints
+            return [
+                x if isinstance(x, ast.AST) else ast.Constant(value=x) for x in arg
+            ]
+        elif isinstance(arg, ast.Tuple):
             # If it's a tuple, return elts
             return arg.elts
         elif isinstance(arg, ast.Constant) and isinstance(arg.value, ast.Tuple):
